@@ -883,6 +883,24 @@ def settle(rep, pid, findings, concrete_prefixes):
         return
     rep.replays += 1
     hits = search_corpus(concrete_prefixes)
+    if not hits:
+        # counter-models of the process_parenthetical lemma carry a parenthetical text: write it (and its
+        # blank-normalised variants) after a full citation and ask the real get_citations
+        extra = []
+        for p, f in cex:
+            t = (f.get("witness") or {}).get("text")
+            if p == "paren" and isinstance(t, str):
+                blank = "".join(" " if ch.isspace() else ch for ch in t)
+                for v in (t, blank, "  " + blank.strip() + "x", blank.strip() + "x  ", "  " + blank, blank + "  "):
+                    for tail in ("", " Then 2 F.2d 2 (2005) x."):
+                        extra.append(f"Foo v. Bar, 1 U.S. 1 (1999) ({v}){tail}")
+        for t in dict.fromkeys(extra):
+            bad, cs = oracle_text(t)
+            bad = [b for b in bad if any(b.startswith(q) for q in concrete_prefixes)]
+            if bad:
+                hits.append((t, bad))
+                if len(hits) >= 3:
+                    break
     if hits:
         for t, bad in hits:
             rep.violation(f"get_citations({t!r}) violates {bad}  (symbolic counter-models: {sorted({f['clause'] for _, f in cex})[:4]})", {"kind": "text", "text": t})
